@@ -1586,3 +1586,91 @@ impl Observer for SnapshotObserver {
         self.check_client(w, who, what)
     }
 }
+
+// ---------------------------------------------------------------------------------------------
+// C06: a refused event has no effect (any event class), no panic
+// ---------------------------------------------------------------------------------------------
+
+#[derive(Default)]
+pub struct RefusalObserver {
+    pub strict: bool,
+    pub judged: u64,
+    pub nontrivial: u64,
+    pub classes: BTreeSet<String>,
+    pub excused: Vec<String>,
+}
+
+impl Observer for RefusalObserver {
+    fn wants_before(&self) -> bool {
+        true
+    }
+    fn after_delivery(
+        &mut self,
+        w: &World,
+        who: usize,
+        idx: usize,
+        before: Option<&Vec<Full>>,
+        outcome: &Outcome,
+        _redelivery: bool,
+    ) -> Result<(), Failure> {
+        let Some(before_all) = before else { return Ok(()) };
+        let ev = &w.relay[idx];
+        let hostile = ev.named.rogue.as_deref().map(|r| r.starts_with("hostile")).unwrap_or(false);
+        if hostile {
+            let state = if w.clients[who].cur.is_none() {
+                "inactive-or-no-group"
+            } else if before_all[0].pending_commit {
+                "pending-commit"
+            } else if before_all[0].pending_proposal_count > 0 {
+                "pending-proposals"
+            } else {
+                "idle"
+            };
+            self.classes.insert(format!("{}->{}", ev.named.rogue.clone().unwrap_or_default(), outcome.tag()));
+            self.classes.insert(format!("victim-state:{state}"));
+        }
+        if !outcome.is_failure_class() {
+            if hostile
+                && std::env::var("VCHECK_DEBUG_ACCEPTED").is_ok()
+                && (ev.what.contains("InnerBitFlip") || ev.what.contains("HeaderEpoch") || ev.what.contains("HeaderContentType"))
+            {
+                return Err(Failure::new("debug-mutant-accepted", format!("#{idx} {} at c{who}: {}", ev.what, outcome.tag())));
+            }
+            return Ok(());
+        }
+        self.judged += 1;
+        if hostile && ev.what.contains("Inner") || ev.what.contains("Header") || ev.what.contains("Backdated") {
+            self.nontrivial += 1;
+        }
+        let after_all = w.full_all(who);
+        if *before_all != after_all {
+            let d = before_all
+                .iter()
+                .zip(after_all.iter())
+                .map(|(b, a)| diff_full(b, a))
+                .filter(|s| !s.is_empty())
+                .collect::<Vec<_>>()
+                .join(" | ");
+            let detail = format!(
+                "event #{idx} ({:?}, {}) handed to c{who} at step {} was refused ({}{}), yet the client changed: {d}",
+                ev.class,
+                ev.what,
+                w.step,
+                outcome.tag(),
+                match outcome {
+                    Outcome::Err(e) => format!(": {e}"),
+                    _ => String::new(),
+                }
+            );
+            if rollback_fired_now(w, who, idx) {
+                if self.strict {
+                    return Err(Failure::new("refused-event-rolled-the-group-back", detail));
+                }
+                self.excused.push("O15-rollback-before-validation".into());
+                return Ok(());
+            }
+            return Err(Failure::new("refused-event-had-an-effect", detail));
+        }
+        Ok(())
+    }
+}
